@@ -233,12 +233,16 @@ def finish (s : St) (r : Nat) (res : Heap × Option SimplexObj.HErr) (kind : Kin
     else match obj with
       | some o => s.stale[r]! && !(o.vValues == some (Simplex.orderedValues o.vProb 1))
       | none => false
+  -- a stale register whose values happen to be right again: the kept input was the probability vector
+  let inp : Option (List Rat) :=
+    if s.stale[r]! && !staleNow then (match kind with | .fresh i => some i | _ => none) else inp
   let s1 := { s with heap := h, input := s.input.set! r inp, stale := s.stale.set! r staleNow }
   match impl with
   | none => (s1, out, "-")
   | some t =>
     let ans := " ".intercalate t
-    if ans.startsWith "exc:" then
+    if ans.startsWith "exc:" || ans == "ub" then
+      -- (`ub`: the harness did not execute a call that would read out of bounds)
       (s1, out, if validIn then "FAIL:accepts_valid" else "-")
     else
     let s2 := { s1 with last := s1.last.set! r (some t) }
